@@ -95,9 +95,37 @@ def m_F06(case, backend, f):
     return False
 
 
+def _expr_name(e):
+    return e[-1] if isinstance(e, list) and e and e[0] in ("str", "c", "col") else None
+
+
+def f07_shape(case):
+    """a summarize on a grouped table one of whose aggregates carries the (current) name of a grouping column"""
+    for p in walk_pipes(case["pipe"]):
+        group = []
+        for st in p["steps"]:
+            if st[0] == "group_by":
+                names = [_expr_name(e) for e in st[1]]
+                group = (group if (len(st) > 2 and st[2]) else []) + [n for n in names if n]
+            elif st[0] == "ungroup":
+                group = []
+            elif st[0] == "rename":
+                ren = {(_expr_name(o) if isinstance(o, list) else o): n for o, n in st[1]}
+                group = [ren.get(g, g) for g in group]
+            elif st[0] == "summarize":
+                if set(group) & {n for n, _ in st[1]}:
+                    return True
+                group = []
+    return False
+
+
 def m_F07(case, backend, f):
     """SQL export fails with the strict zip() of SqlImpl.export after a grouped summarize (an
     aggregate carrying the name of a grouping column: duplicate label in the select list)"""
+    if backend == "sqlite" and f.get("kind") == "l3" and set(f.get("fields", [])) <= {1, 10, 11} and f07_shape(case):
+        # the same defect seen one level down: the real compile_ast selects the grouping column and the aggregate
+        # under one label; the compile model (one column per name) differs in select / labels / scope exactly there
+        return True
     if backend != "sqlite" or f.get("exc") != "ValueError" or "zip()" not in (f.get("msg") or ""):
         return False
     for p in walk_pipes(case["pipe"]):
